@@ -338,6 +338,79 @@ def tld_functions(ctx, rule):
     ctx.ob(rule, "refresh/feeds-both-lists", ok, "tld.refresh does not feed PUBLIC_SUFFIXES, PRIVATE_SUFFIXES and TLDS into the trie / set", tld.site(ref.node))
 
 
+def tables_ready(ctx, rule):
+    ctx.rule(rule, "the bundled lists are loaded before any reader runs (who fills / who reads): either a module-level statement of ural.tld calls a loader (a function from which the statements feeding SUFFIX_TRIE / TLD_SET are reachable through the module's own calls), or every function of the package that reads one of the two tables calls a loader before its first read; a table read by a function that no loader precedes is empty until some sibling has run")
+    repo = ctx.repo
+    tld = repo.mod("tld")
+    tables = ("SUFFIX_TRIE", "TLD_SET")
+    defs = {st.name: st for st in tld.tree.body if isinstance(st, ast.FunctionDef)}
+
+    def feeds(fn):
+        for c in ast.walk(fn):
+            if isinstance(c, ast.Call) and isinstance(c.func, ast.Attribute) and isinstance(c.func.value, ast.Name) and c.func.value.id in tables and c.func.attr in ("add", "update", "extend", "append", "__ior__"):
+                return True
+            if isinstance(c, ast.AugAssign) and isinstance(c.target, ast.Name) and c.target.id in tables:
+                return True
+        return False
+
+    def calls(node):
+        return set(c.func.id for c in ast.walk(node) if isinstance(c, ast.Call) and isinstance(c.func, ast.Name) and c.func.id in defs)
+    loaders = set(n for n, fn in defs.items() if feeds(fn))
+    feeders = set(loaders)
+    ctx.require_instances(rule, len(loaders), 1, "functions feeding SUFFIX_TRIE / TLD_SET")
+    changed = True
+    while changed:
+        changed = False
+        for n, fn in defs.items():
+            if n not in loaders and calls(fn) & loaders:
+                loaders.add(n)
+                changed = True
+
+    def toplevel(body):
+        for st in body:
+            if isinstance(st, (ast.FunctionDef, ast.AsyncFunctionDef, ast.ClassDef)):
+                continue
+            if isinstance(st, (ast.If, ast.Try, ast.With, ast.For, ast.While)):
+                for name in ("body", "orelse", "finalbody"):
+                    for x in toplevel(getattr(st, name, []) or []):
+                        yield x
+                for h in getattr(st, "handlers", []) or []:
+                    for x in toplevel(h.body):
+                        yield x
+                continue
+            yield st
+    at_import = [st for st in toplevel(tld.tree.body) if calls(st) & loaders]
+    # readers: every function of the package naming one of the tables (outside the loaders themselves)
+    readers = []
+    for mname in sorted(repo.all_module_names()):
+        try:
+            m = repo.mod(mname)
+        except (AnalysisError, SyntaxError):
+            continue
+        local = m is tld
+        bound = set(t for t in tables if local or (m.last_binding(t) is not None and m.last_binding(t)[0] == "import" and str(m.last_binding(t)[1]).endswith("tld")))
+        if not bound:
+            continue
+        for st in ast.walk(m.tree):
+            if not isinstance(st, ast.FunctionDef) or (local and st.name in feeders):
+                continue
+            read_at = None
+            for i, b in enumerate(st.body):
+                if any(isinstance(x, ast.Name) and x.id in bound and isinstance(x.ctx, ast.Load) for x in ast.walk(b)):
+                    read_at = i
+                    break
+            if read_at is not None:
+                readers.append((m, st, read_at))
+    ctx.require_instances(rule, len(readers), 4, "functions reading SUFFIX_TRIE / TLD_SET")
+    for m, fn, read_at in readers:
+        ctx.fn("%s.%s" % (m.name, fn.name))
+        guarded = m is tld and any(isinstance(b, ast.Expr) and isinstance(b.value, ast.Call) and isinstance(b.value.func, ast.Name) and b.value.func.id in loaders for b in fn.body[:read_at])
+        ctx.ob(rule, "%s/table-loaded-before-read" % fn.name, bool(at_import) or guarded,
+               "%s reads %s but nothing loads the bundled lists before it: no module-level statement of ural.tld calls %s, and the function does not call one of them before its first read (it answers from an empty table until a sibling function has run)"
+               % (fn.name, " / ".join(tables), " / ".join(sorted(loaders))), m.site(fn), witness="%s('www.google.co.uk') in a fresh interpreter" % fn.name,
+               sample="loaded at import by `%s`" % unparse(at_import[0])[:60] if at_import else "calls a loader first")
+
+
 def run(ctx):
     from .common_url import rule_punycode
     rule_punycode(ctx, "R6")
@@ -353,6 +426,7 @@ def run(ctx):
     model_table(ctx, "R5")
     data_conditions(ctx, "R3")
     tld_functions(ctx, "R4")
+    tables_ready(ctx, "R8")
 
 
 # ----------------------------------------------------------------------
